@@ -71,6 +71,35 @@ func ruleErrs(r *Run, p *Program, rule string) {
 				r.ok(rule, key, p.Pos(in.Pos()), "reviewed exception: "+why, false)
 				return
 			}
+			// Close of a handle that this function opened read-only: nothing can be lost
+			if cc.IsInvoke() && cc.Method.Name() == "Close" {
+				ro := false
+				for _, s := range sources(cc.Value) {
+					x := s
+					// f.File of a *file returned by openFile, or the result itself
+					for d := 0; d < 6; d++ {
+						switch y := x.(type) {
+						case *ssa.UnOp:
+							x = y.X
+							continue
+						case *ssa.FieldAddr:
+							x = y.X
+							continue
+						case *ssa.Field:
+							x = y.X
+							continue
+						}
+						break
+					}
+					if c, idx := callResult(x); c != nil && idx <= 0 && calleeKey(&c.Call) == "pogreb.openFile" && len(c.Call.Args) == 3 && openFlagsReadOnly(c.Call.Args[2]) {
+						ro = true
+					}
+				}
+				if ro {
+					r.ok(rule, key, p.Pos(in.Pos()), "Close of a file this function opened read-only: nothing to lose", true)
+					return
+				}
+			}
 			if !isDefer {
 				// cleanup on a failing path: every return reachable afterwards is a failure return
 				w := &Walk{Fn: f}
@@ -110,6 +139,78 @@ func ruleErrs(r *Run, p *Program, rule string) {
 			}) {
 				r.ok(rule, key, p.Pos(in.Pos()), "error dropped in a closure that runs only when the enclosing function's error is already non-nil (cleanup)", true)
 				return
+			}
+			// a local clean-up helper (closure) that its parent calls only on paths that already fail
+			if par := f.Parent(); par != nil {
+				var sites []ssa.Instruction
+				instrsOf(par, func(x ssa.Instruction) {
+					if c, ok := x.(*ssa.Call); ok {
+						if g, _, _ := resolveFuncValue(&Ctx{Fn: par}, c.Call.Value, 0); g == f {
+							sites = append(sites, c)
+						}
+					}
+				})
+				allFail := len(sites) > 0
+				for _, site := range sites {
+					w := &Walk{Fn: par}
+					w.From(site)
+					any := false
+					for _, ret := range returnsOf(par) {
+						if w.Visited[ret] {
+							any = true
+							if !isFailureReturn(par, ret) {
+								allFail = false
+							}
+						}
+					}
+					if !any {
+						allFail = false
+					}
+				}
+				if allFail {
+					r.ok(rule, key, p.Pos(in.Pos()), "error dropped in a local clean-up helper that is called only on paths that already return another error", true)
+					return
+				}
+			}
+			// conditional cleanup in a deferred closure: the call runs only under a test of state captured from the
+			// enclosing function (an error variable, a success flag, a clean-up function that is nil-ed on success)
+			if par := f.Parent(); par != nil {
+				deferred := false
+				instrsOf(par, func(x ssa.Instruction) {
+					if d, ok := x.(*ssa.Defer); ok {
+						if mc, ok := d.Call.Value.(*ssa.MakeClosure); ok && mc.Fn == ssa.Value(f) {
+							deferred = true
+						}
+					}
+				})
+				rootedAtFreeVar := func(v ssa.Value) bool {
+					for _, s := range sources(v) {
+						x := s
+						for d := 0; d < 6; d++ {
+							switch y := x.(type) {
+							case *ssa.FreeVar:
+								return true
+							case *ssa.UnOp:
+								x = y.X
+								continue
+							case *ssa.FieldAddr:
+								x = y.X
+								continue
+							}
+							break
+						}
+					}
+					return false
+				}
+				if deferred && controlledBy(f, in, func(c *Cond) bool {
+					if c.X != nil && c.Y != nil {
+						return rootedAtFreeVar(c.X) || rootedAtFreeVar(c.Y)
+					}
+					return c.V != nil && rootedAtFreeVar(c.V)
+				}) {
+					r.ok(rule, key, p.Pos(in.Pos()), "error dropped by conditional cleanup in a deferred closure (runs only under a test of the enclosing function's state)", true)
+					return
+				}
 			}
 			// non-I/O std helpers whose error is irrelevant
 			if strings.HasPrefix(name, "(*expvar.") || strings.Contains(name, "log.Logger") {
@@ -169,6 +270,123 @@ func metaPairsReader(f *ssa.Function, metaType, stateType string) map[string]str
 	return out
 }
 
+// metaPairsByFlow pairs metadata fields with state fields without knowing the writer/reader functions: a store into
+// a metadata field is traced back (through parameters to every static caller's argument) to the state field it was
+// loaded from; a load of a metadata field is traced forward (through results to every static caller) to the state
+// field it is stored into.
+func metaPairsByFlow(p *Program, metaType, stateType string) (wf, rf *ssa.Function, wp, rp map[string]string) {
+	wp, rp = map[string]string{}, map[string]string{}
+	var origin func(v ssa.Value, f *ssa.Function, d int) string
+	origin = func(v ssa.Value, f *ssa.Function, d int) string {
+		if d > 3 {
+			return "?"
+		}
+		res := ""
+		for _, s := range sources(v) {
+			cur := "?"
+			switch x := s.(type) {
+			case *ssa.UnOp:
+				if strings.HasPrefix(fieldName(x.X), stateType+".") {
+					cur = strings.TrimPrefix(fieldName(x.X), stateType+".")
+				}
+			case *ssa.Parameter:
+				idx := paramIndex(x)
+				for _, c := range staticCallersOf(p, f) {
+					instrsOf(c, func(in ssa.Instruction) {
+						if ci, ok := in.(ssa.CallInstruction); ok && ci.Common().StaticCallee() == f && idx >= 0 && idx < len(ci.Common().Args) {
+							o := origin(ci.Common().Args[idx], c, d+1)
+							if cur == "?" || cur == o {
+								cur = o
+							} else {
+								cur = "conflict"
+							}
+						}
+					})
+				}
+			}
+			if res == "" || res == cur {
+				res = cur
+			} else {
+				res = "conflict"
+			}
+		}
+		if res == "" {
+			return "?"
+		}
+		return res
+	}
+	var dest func(v ssa.Value, f *ssa.Function, d int) string
+	dest = func(v ssa.Value, f *ssa.Function, d int) string {
+		if d > 3 || v.Referrers() == nil {
+			return "?"
+		}
+		res := "?"
+		for _, u := range *v.Referrers() {
+			switch x := u.(type) {
+			case *ssa.Store:
+				if x.Val == v && strings.HasPrefix(fieldName(x.Addr), stateType+".") {
+					res = strings.TrimPrefix(fieldName(x.Addr), stateType+".")
+				}
+			case *ssa.Return:
+				for i, rv := range x.Results {
+					if rv != v {
+						continue
+					}
+					for _, c := range staticCallersOf(p, f) {
+						instrsOf(c, func(in ssa.Instruction) {
+							call, ok := in.(*ssa.Call)
+							if !ok || call.Call.StaticCallee() != f || call.Referrers() == nil {
+								return
+							}
+							for _, w := range *call.Referrers() {
+								if ex, ok := w.(*ssa.Extract); ok && ex.Index == i {
+									if o := dest(ex, c, d+1); o != "?" {
+										res = o
+									}
+								}
+							}
+							if len(x.Results) == 1 {
+								if o := dest(call, c, d+1); o != "?" {
+									res = o
+								}
+							}
+						})
+					}
+				}
+			case *ssa.Phi:
+				if o := dest(x, f, d+1); o != "?" {
+					res = o
+				}
+			}
+		}
+		return res
+	}
+	for _, f := range p.ModuleFuncs("") {
+		if f.Pkg != p.MainS {
+			continue
+		}
+		instrsOf(f, func(in ssa.Instruction) {
+			switch x := in.(type) {
+			case *ssa.Store:
+				fn := fieldName(x.Addr)
+				if strings.HasPrefix(fn, metaType+".") {
+					wf = f
+					wp[strings.TrimPrefix(fn, metaType+".")] = origin(x.Val, f, 0)
+				}
+			case *ssa.UnOp:
+				fn := fieldName(x.X)
+				if x.Op == token.MUL && strings.HasPrefix(fn, metaType+".") {
+					if o := dest(x, f, 0); o != "?" {
+						rf = f
+						rp[strings.TrimPrefix(fn, metaType+".")] = o
+					}
+				}
+			}
+		})
+	}
+	return
+}
+
 func ruleC02MetaSymmetry(r *Run, p *Program, rule string) {
 	type pair struct{ writer, reader, meta, state string }
 	for _, pr := range []pair{
@@ -176,13 +394,21 @@ func ruleC02MetaSymmetry(r *Run, p *Program, rule string) {
 		{"(*pogreb.DB).writeMeta", "(*pogreb.DB).readMeta", "pogreb.dbMeta", "pogreb.DB"},
 	} {
 		wf, rf := p.Fn(pr.writer), p.Fn(pr.reader)
+		var wp, rp map[string]string
+		if wf != nil && rf != nil {
+			wp = metaPairsWriter(wf, pr.meta, pr.state)
+			rp = metaPairsReader(rf, pr.meta, pr.state)
+		} else {
+			// the writer/reader were reshaped (free functions taking and returning the values): follow each metadata field
+			// through parameters and results across the package
+			wf, rf, wp, rp = metaPairsByFlow(p, pr.meta, pr.state)
+		}
 		if !r.anchor(rule, pr.writer+" / "+pr.reader, wf != nil && rf != nil) {
 			continue
 		}
-		r.fn(pr.writer)
-		r.fn(pr.reader)
-		wp := metaPairsWriter(wf, pr.meta, pr.state)
-		rp := metaPairsReader(rf, pr.meta, pr.state)
+		r.fn(funcKey(wf))
+		r.fn(funcKey(rf))
+		pr.reader = funcKey(rf)
 		// every field of the meta struct is written and read back into the field it came from
 		n := p.NamedType(p.Main, strings.TrimPrefix(pr.meta, "pogreb."))
 		if !r.anchor(rule, "type "+pr.meta, n != nil) {
